@@ -427,7 +427,12 @@ func unmarshalWhere(data []byte, parents []Node, typ TypeOf) (Node, error) {
 		return nil, fmt.Errorf("expected one parent for node %d but found %d", typ.ID, len(parents))
 	}
 	parent := parents[0]
+	var nodeParent chainNodeAliasWhere
 	nodeParent, ok := parent.(chainNodeAliasWhere)
+	if !ok {
+		// FromNode.Where is a property method: the where node hangs on its chainnode.
+		nodeParent, ok = isChainNode(parent)
+	}
 	if !ok {
 		return nil, fmt.Errorf("parent node does not have where clause but is %T", parent)
 	}
@@ -441,7 +446,12 @@ func unmarshalGroupby(data []byte, parents []Node, typ TypeOf) (Node, error) {
 		return nil, fmt.Errorf("expected one parent for node %d but found %d", typ.ID, len(parents))
 	}
 	parent := parents[0]
+	var nodeParent chainNodeAliasGroupBy
 	nodeParent, ok := parent.(chainNodeAliasGroupBy)
+	if !ok {
+		// FromNode.GroupBy and QueryNode.GroupBy are property methods: the groupBy node hangs on their chainnode.
+		nodeParent, ok = isChainNode(parent)
+	}
 	if !ok {
 		return nil, fmt.Errorf("parent node does not have groupBy clause but is %T", parent)
 	}
@@ -523,6 +533,20 @@ func isChainNode(node Node) (chainnodeAlias, bool) {
 	if ok {
 		return &shift.chainnode, true
 	}
+	// Nodes with a field named like a chain method (Max, Min, Delete)
+	// or with a property method named like a chain method (Where, GroupBy).
+	switch n := node.(type) {
+	case *CombineNode:
+		return &n.chainnode, true
+	case *K8sAutoscaleNode:
+		return &n.chainnode, true
+	case *BarrierNode:
+		return &n.chainnode, true
+	case *FromNode:
+		return &n.chainnode, true
+	case *QueryNode:
+		return &n.chainnode, true
+	}
 	return nil, false
 }
 
@@ -567,6 +591,8 @@ type chainnodeAlias interface {
 	Name() string
 	Parents() []Node
 	Percentile(string, float64) *InfluxQLNode
+	Where(*ast.LambdaNode) *WhereNode
+	GroupBy(...interface{}) *GroupByNode
 	Provides() EdgeType
 	Sample(interface{}) *SampleNode
 	SetName(string)
